@@ -213,6 +213,13 @@ class AnyArray(np.lib.mixins.NDArrayOperatorsMixin):
         """
         return not self._writeable
 
+    def __setstate__(self, state):
+        # numpy does not pickle its `writeable` flag: re-apply the lock of a
+        # read-only array after unpickling / deep-copying
+        self.__dict__.update(state)
+        if not self._writeable and isinstance(self._val, np.ndarray):
+            self._val.flags.writeable = False
+
     def at(self, device_id, *, check_fail=True):
         """Returns a copy of the AnyArray on the specified device.
 
